@@ -2,7 +2,42 @@
 
 package telegram
 
+import (
+	"github.com/gotd/td/bin"
+	"github.com/gotd/td/mtproto"
+	"github.com/gotd/td/pool"
+	"github.com/gotd/td/telegram/internal/manager"
+	"github.com/gotd/td/tg"
+)
+
 // VerifRetryableOnNewConn exposes the client's "safe to retry on a new
 // connection" predicate to the verification harness (added through
 // go build -overlay by /verif; not part of gotd/td).
 func VerifRetryableOnNewConn(err error) bool { return errRetryableOnNewConn(err) }
+
+// VerifConnSpec is what the client asks of its connection constructor, in
+// types a package outside gotd/td can name (manager is internal).
+type VerifConnSpec struct {
+	Dialer  mtproto.Dialer
+	Mode    int // manager.ConnMode: 0 updates, 1 data, 2 CDN
+	DC      int
+	Opts    mtproto.Options
+	Handler interface {
+		OnSession(cfg tg.Config, s mtproto.Session) error
+		OnMessage(b *bin.Buffer) error
+	}
+	OnDead   func(error)
+	HasSetup bool
+}
+
+// VerifSetConstructor replaces the connection constructor of a client that
+// has not been started (the seam the package's own tests use) and re-creates
+// the primary connection through it.
+func VerifSetConstructor(c *Client, f func(spec VerifConnSpec) pool.Conn) {
+	c.create = func(create mtproto.Dialer, mode manager.ConnMode, appID int, opts mtproto.Options, connOpts manager.ConnOptions) pool.Conn {
+		return f(VerifConnSpec{Dialer: create, Mode: int(mode), DC: connOpts.DC, Opts: opts, Handler: connOpts.Handler, OnDead: connOpts.OnDead, HasSetup: connOpts.Setup != nil})
+	}
+	c.connMux.Lock()
+	c.conn = c.createPrimaryConn(nil)
+	c.connMux.Unlock()
+}
